@@ -88,7 +88,10 @@ def gen_cell(rng):
         if rng.random() < 0.2 and year % 4 == 0 and (year % 100 != 0 or year % 400 == 0):
             month, day = 2, 29
         hms = rng.choice([(0, 0, 0), (23, 59, 59), (12, 0, 0), (rng.randint(0, 23), rng.randint(0, 59), rng.randint(0, 59))])
-        return ("datetime", datetime.datetime(year, month, day, *hms))
+        # some with a fraction of a second below one half (what NOW() or date arithmetic leave in a cell): the
+        # documented rendering has whole seconds
+        fraction = rng.choice([120000, 250000, 333000]) if rng.random() < 0.15 else 0
+        return ("datetime", datetime.datetime(year, month, day, *hms, fraction))
     hms = rng.choice([(0, 0, 1), (23, 59, 59), (rng.randint(0, 23), rng.choice([0, 59, 30]), rng.choice([0, 59])), (rng.randint(0, 23), rng.randint(0, 59), rng.randint(0, 59))])
     return ("time", datetime.time(*hms))
 
